@@ -206,7 +206,7 @@ func run(propID, tier, root, verif, patchFile, onlyRule string, verbose, noSeeds
 		fmt.Fprintf(&rep, "known-finding %s  %s at %s: %s\n", o.Rule, o.Construct, o.Pos, o.Detail)
 	}
 	for _, o := range undecided {
-		fmt.Fprintf(&rep, "undecided %s  %s at %s: %s\n", o.Rule, o.Construct, o.Pos, o.Detail)
+		fmt.Fprintf(&rep, "UNDECIDED %s  %s\n    at %s\n    %s\n", o.Rule, o.Construct, o.Pos, o.Detail)
 	}
 	for _, s := range seedResults {
 		if s.Status != "fired" {
@@ -230,7 +230,8 @@ func run(propID, tier, root, verif, patchFile, onlyRule string, verbose, noSeeds
 			fmt.Fprintf(&rep, "  [%s] %s %s (%s) %s\n", o.Verdict, o.Rule, o.Construct, o.Pos, o.Detail)
 		}
 	}
-	failed := len(violations) > 0 || len(lost) > 0 || len(problems) > 0
+	// an obligation the checker cannot decide is not a pass: the construct is not one of the shapes the rule knows to be sound
+	failed := len(violations) > 0 || len(lost) > 0 || len(problems) > 0 || len(undecided) > 0
 	repPath := filepath.Join(verif, "reports", fmt.Sprintf("%s-%s.txt", propID, tier))
 	_ = os.MkdirAll(filepath.Dir(repPath), 0o755)
 	_ = os.WriteFile(repPath, []byte(rep.String()), 0o644)
@@ -372,7 +373,7 @@ func runSeeds(prog *load.Program, propID, tier string, base []core.Obligation) [
 		rules.Forget(mut)
 		res.Status = "missed"
 		for _, o := range ctx.Obs {
-			if (o.Verdict == core.Violation || o.Verdict == core.Lost) && !baseBad[o.Key()] && strings.Contains(o.Key(), s.Expect) {
+			if (o.Verdict == core.Violation || o.Verdict == core.Lost || o.Verdict == core.Undecided) && !baseBad[o.Key()] && strings.Contains(o.Key(), s.Expect) {
 				res.Status = "fired"
 				res.Detail = o.Key()
 				break
@@ -414,7 +415,7 @@ func runSeeded(prog *load.Program, propID, root, verif string, selected []*core.
 		for _, r := range selected {
 			ctx := core.RunRule(mut, r)
 			for _, o := range ctx.Obs {
-				if (o.Verdict == core.Violation || o.Verdict == core.Lost) && !baseBad[o.Key()] {
+				if (o.Verdict == core.Violation || o.Verdict == core.Lost || o.Verdict == core.Undecided) && !baseBad[o.Key()] {
 					hits = append(hits, o.Key())
 				}
 			}
@@ -468,7 +469,7 @@ func runBenign(prog *load.Program, root, verif string, selected []*core.Rule, ba
 				if o.Verdict != core.Lost {
 					n++
 				}
-				if (o.Verdict == core.Violation || o.Verdict == core.Lost) && !baseBad[o.Key()] {
+				if (o.Verdict == core.Violation || o.Verdict == core.Lost || o.Verdict == core.Undecided) && !baseBad[o.Key()] {
 					hits = append(hits, o.Key())
 				}
 			}
